@@ -1,6 +1,7 @@
 package ir
 
 import (
+	"go/constant"
 	"go/token"
 	"go/types"
 	"strings"
@@ -122,6 +123,10 @@ type env struct {
 	up     *env
 	call   ssa.CallInstruction // the call this environment instantiates (nil at the top)
 	caller *env                // the environment of the function containing call
+	// closure: the environment is that of a closure body; the instruction that created the closure (its bindings are the
+	// captured variables) and the environment of the creating function
+	closure    *ssa.MakeClosure
+	closureEnv *env
 }
 
 func (e *env) apply(x *Expr) *Expr {
@@ -188,10 +193,6 @@ func (w *World) holds(fn *ssa.Function, v ssa.Value, pol bool, m Matcher, en *en
 		return true // coinductive: loop-carried phi
 	}
 	switch x := v.(type) {
-	case *ssa.UnOp:
-		if x.Op == token.NOT {
-			return w.holds(fn, x.X, !pol, m, en, depth, busy)
-		}
 	case *ssa.Phi:
 		busy[k] = true
 		defer delete(busy, k)
@@ -219,6 +220,49 @@ func (w *World) holds(fn *ssa.Function, v ssa.Value, pol bool, m Matcher, en *en
 				continue
 			}
 			return false
+		}
+		return true
+	case *ssa.Field, *ssa.UnOp:
+		// a verdict carried in a record (`t.stale`, `plan.prune`): decide it where the field was computed — in the function
+		// that built the record, however many calls the record was handed through
+		var base ssa.Value
+		var fi int
+		switch y := x.(type) {
+		case *ssa.Field:
+			base, fi = y.X, y.Field
+		case *ssa.UnOp:
+			if y.Op == token.NOT {
+				return w.holds(fn, y.X, !pol, m, en, depth, busy)
+			}
+			fa, ok := y.X.(*ssa.FieldAddr)
+			if y.Op != token.MUL || !ok {
+				return false
+			}
+			base, fi = fa.X, fa.Field
+		}
+		if bt, ok := v.Type().Underlying().(*types.Basic); !ok || bt.Kind() != types.Bool {
+			return false
+		}
+		srcs, ok := w.fieldSources(fn, base, fi, en, v.(ssa.Instruction), 0)
+		if !ok || len(srcs) == 0 {
+			return false
+		}
+		busy[k] = true
+		defer delete(busy, k)
+		for _, s := range srcs {
+			if s.v == nil {
+				// the field keeps its zero value (false) on this way
+				if pol {
+					continue
+				}
+				return false
+			}
+			if s.partial && !pol {
+				return false // the field may also still be false without the stored value saying so
+			}
+			if !w.holds(s.fn, s.v, pol, m, s.en, depth, busy) {
+				return false
+			}
 		}
 		return true
 	case *ssa.Parameter:
@@ -282,6 +326,9 @@ func (w *World) holds(fn *ssa.Function, v ssa.Value, pol bool, m Matcher, en *en
 		}
 		return true
 	case *ssa.BinOp:
+		if ok, res := w.holdsFlag(fn, x, pol, m, en, depth, busy, k); ok {
+			return res
+		}
 		// err == nil / err != nil on the error result of an in-scope helper
 		if (x.Op == token.EQL || x.Op == token.NEQ) && depth > 0 {
 			var other ssa.Value
@@ -462,11 +509,11 @@ func (w *World) calleeEnv(call ssa.CallInstruction, en *env) (*ssa.Function, *en
 		// enclosing function) has that value whenever the closure runs
 		for i, fv := range g.FreeVars {
 			if v := singleAssignment(mc.Bindings[i]); v != nil {
-				params["free:"+fv.Name()] = men.apply(w.ExprOf(v))
+				params["free:"+fv.Name()] = men.apply(w.ResolveCaptured(w.ExprOf(v)))
 			}
 		}
 	}
-	return g, &env{params: params, call: call, caller: en}
+	return g, &env{params: params, call: call, caller: en, closure: mc, closureEnv: men}
 }
 
 // singleAssignment: the binding is the address of a local that is stored to exactly once in its function and
@@ -890,4 +937,598 @@ func ErrIndexOfCall(call ssa.CallInstruction) int {
 		}
 	}
 	return -1
+}
+
+// ResolveCaptured replaces, in e, every variable that is captured by a closure but assigned exactly once (where it is
+// declared, never by a closure) by the value it was given — `recv, err := parse(req.X)` followed by closures reading recv.
+func (w *World) ResolveCaptured(e *Expr) *Expr {
+	for i := 0; i < 4; i++ {
+		var hit, val *Expr
+		e.Walk(func(x *Expr) bool {
+			if hit != nil {
+				return false
+			}
+			if x.Op == "captured" {
+				if al, ok := x.V.(*ssa.Alloc); ok {
+					if v := singleAssignment(al); v != nil {
+						hit, val = x, w.ExprOf(v)
+						return false
+					}
+				}
+			}
+			return true
+		})
+		if hit == nil {
+			return e
+		}
+		e = Replace(e, hit, val)
+	}
+	return e
+}
+
+// LostUpdate is a store into a field of a local record after which the record (or that field) is never read again before it
+// is overwritten or goes out of scope: a value computed and dropped — typically an update made to a copy (`for _, s := range
+// xs { s.n += d }`, `s := xs[i]; s.n += d`) where the element itself was meant.
+type LostUpdate struct {
+	Store *ssa.Store
+	Alloc *ssa.Alloc
+	Field string
+}
+
+// LostUpdates finds the lost field updates of fn. Only locals whose address never leaves the function are judged
+// (no call argument, closure capture, or copy of the address), so that every read of the record is visible.
+func LostUpdates(fn *ssa.Function) []LostUpdate {
+	var out []LostUpdate
+	for _, b := range fn.Blocks {
+		for _, in := range b.Instrs {
+			al, ok := in.(*ssa.Alloc)
+			if !ok || al.Referrers() == nil {
+				continue
+			}
+			if _, isStruct := al.Type().Underlying().(*types.Pointer).Elem().Underlying().(*types.Struct); !isStruct {
+				continue
+			}
+			escapes := false
+			reads := map[ssa.Instruction]int{} // load instruction -> field index read (-1: whole record)
+			kills := map[ssa.Instruction]int{} // store instruction -> field index overwritten (-1: whole record)
+			var fstores []*ssa.Store
+			fieldOf := map[*ssa.Store]int{}
+			for _, r := range *al.Referrers() {
+				switch x := r.(type) {
+				case *ssa.DebugRef:
+				case *ssa.UnOp:
+					reads[x] = -1
+				case *ssa.Store:
+					if x.Addr == ssa.Value(al) {
+						kills[x] = -1
+					} else {
+						escapes = true // the address itself is stored somewhere
+					}
+				case *ssa.FieldAddr:
+					if x.Referrers() == nil {
+						continue
+					}
+					for _, rr := range *x.Referrers() {
+						switch y := rr.(type) {
+						case *ssa.DebugRef:
+						case *ssa.UnOp:
+							reads[y] = x.Field
+						case *ssa.Store:
+							if y.Addr == ssa.Value(x) {
+								kills[y] = x.Field
+								fstores = append(fstores, y)
+								fieldOf[y] = x.Field
+							} else {
+								escapes = true
+							}
+						default:
+							// nested field / element address, method call on the field's address, ...: treated as a read of
+							// the field that may also hand the address on
+							escapes = true
+						}
+					}
+				default:
+					escapes = true
+				}
+			}
+			// only a copy of existing data is judged (the record was assigned as a whole from somewhere): a record built
+			// field by field may well set fields nobody reads locally
+			isCopy := false
+			for k, f := range kills {
+				if st, ok := k.(*ssa.Store); ok && f == -1 {
+					if c, isC := st.Val.(*ssa.Const); !isC || c.Value != nil {
+						isCopy = true
+					}
+				}
+			}
+			if escapes || !isCopy {
+				continue
+			}
+			for _, st := range fstores {
+				f := fieldOf[st]
+				if !readAfter(fn, st, f, reads, kills) {
+					out = append(out, LostUpdate{Store: st, Alloc: al, Field: FieldName(al.Type(), f)})
+				}
+			}
+		}
+	}
+	return out
+}
+
+// readAfter: some path from just after st reaches a read of field f (or of the whole record) before a store that overwrites it.
+func readAfter(fn *ssa.Function, st *ssa.Store, f int, reads, kills map[ssa.Instruction]int) bool {
+	type pt struct {
+		b *ssa.BasicBlock
+		i int
+	}
+	seen := map[*ssa.BasicBlock]bool{}
+	var q []pt
+	q = append(q, pt{st.Block(), InstrIndex(st) + 1})
+	for len(q) > 0 {
+		p := q[0]
+		q = q[1:]
+		killed := false
+		for i := p.i; i < len(p.b.Instrs); i++ {
+			in := p.b.Instrs[i]
+			if rf, ok := reads[in]; ok && (rf == -1 || rf == f) {
+				return true
+			}
+			if kf, ok := kills[in]; ok && (kf == -1 || kf == f) {
+				killed = true
+				break
+			}
+		}
+		if killed {
+			continue
+		}
+		for _, s := range p.b.Succs {
+			if !seen[s] {
+				seen[s] = true
+				q = append(q, pt{s, 0})
+			}
+		}
+	}
+	return false
+}
+
+// fieldSrc is one way a record field got its value: value v computed in function fn under environment en (v nil: the
+// field was left at its zero value); partial: the store does not lie on every path to the point where the record is read.
+type fieldSrc struct {
+	fn      *ssa.Function
+	v       ssa.Value
+	en      *env
+	partial bool
+}
+
+// fieldSources follows field fi of the record `base` (a struct value or a pointer to one, in function fn under en) back to
+// the stores that gave it its value: through a local the record lives in (one store to the field, the local's address
+// never leaving the function), through a by-value or pointer parameter to the caller's argument, and through the result
+// of an in-scope call to what the callee returns. at: the instruction reading the record. ok=false: not traceable.
+func (w *World) fieldSources(fn *ssa.Function, base ssa.Value, fi int, en *env, at ssa.Instruction, depth int) ([]fieldSrc, bool) {
+	if depth > 6 {
+		return nil, false
+	}
+	for {
+		switch y := base.(type) {
+		case *ssa.UnOp:
+			if y.Op == token.MUL {
+				base = y.X
+				continue
+			}
+		case *ssa.ChangeType:
+			base = y.X
+			continue
+		}
+		break
+	}
+	switch b := base.(type) {
+	case *ssa.Alloc:
+		if p := spilledParam(b); p != nil {
+			return w.fieldSources(fn, p, fi, en, at, depth+1)
+		}
+		if !localRecord(b) {
+			return nil, false
+		}
+		// the record assigned as a whole from one value (`t := build(...)` with t's fields read later)?
+		var whole []ssa.Value
+		var fstores []*ssa.Store
+		for _, r := range *b.Referrers() {
+			switch x := r.(type) {
+			case *ssa.Store:
+				if x.Addr == ssa.Value(b) {
+					if c, isC := x.Val.(*ssa.Const); !isC || c.Value != nil {
+						whole = append(whole, x.Val)
+					}
+				}
+			case *ssa.FieldAddr:
+				if x.Field != fi {
+					continue
+				}
+				for _, rr := range *x.Referrers() {
+					if st, ok := rr.(*ssa.Store); ok && st.Addr == ssa.Value(x) {
+						fstores = append(fstores, st)
+					}
+				}
+			}
+		}
+		switch {
+		case len(whole) == 1 && len(fstores) == 0:
+			return w.fieldSources(fn, whole[0], fi, en, at, depth+1)
+		case len(whole) == 0 && len(fstores) == 1:
+			st := fstores[0]
+			partial := true
+			if at != nil && at.Parent() == fn && at.Block() != nil {
+				partial = !st.Block().Dominates(at.Block())
+			}
+			return []fieldSrc{{fn: fn, v: st.Val, en: en, partial: partial}}, true
+		case len(whole) == 0 && len(fstores) == 0:
+			return []fieldSrc{{fn: fn, en: en}}, true
+		}
+		return nil, false
+	case *ssa.Parameter:
+		if en == nil || en.call == nil || b.Parent() == nil || en.call.Parent() == nil {
+			return nil, false
+		}
+		cc := en.call.Common()
+		var args []ssa.Value
+		if cc.IsInvoke() {
+			args = append(args, cc.Value)
+		}
+		args = append(args, cc.Args...)
+		ps := b.Parent().Params
+		shift := len(ps) - len(args)
+		for i, p := range ps {
+			if p == b && shift >= 0 && i-shift >= 0 && i-shift < len(args) {
+				return w.fieldSources(en.call.Parent(), args[i-shift], fi, en.caller, en.call, depth+1)
+			}
+		}
+		return nil, false
+	case *ssa.Call, *ssa.Extract:
+		var call *ssa.Call
+		ri := 0
+		switch y := b.(type) {
+		case *ssa.Call:
+			call = y
+		case *ssa.Extract:
+			c, ok := y.Tuple.(*ssa.Call)
+			if !ok {
+				return nil, false
+			}
+			call, ri = c, y.Index
+		}
+		g, sub := w.calleeEnv(call, en)
+		if g == nil || len(g.Blocks) == 0 {
+			return nil, false
+		}
+		var out []fieldSrc
+		ei := ErrIndex(g)
+		for _, blk := range g.Blocks {
+			r, ok := blk.Instrs[len(blk.Instrs)-1].(*ssa.Return)
+			if !ok || ri >= len(r.Results) {
+				continue
+			}
+			if ei >= 0 && ei != ri && ei < len(r.Results) && w.ProvablyNonNil(g, r, r.Results[ei]) {
+				continue // the record of a failed call is not used
+			}
+			ss, ok := w.fieldSources(g, r.Results[ri], fi, sub, r, depth+1)
+			if !ok {
+				return nil, false
+			}
+			out = append(out, ss...)
+		}
+		return out, true
+	}
+	return nil, false
+}
+
+// localRecord: the address of the local never leaves its function (only field addresses that are stored to or loaded
+// from, whole loads and whole stores), so its stores are all the definitions there are.
+func localRecord(al *ssa.Alloc) bool {
+	if al.Referrers() == nil {
+		return false
+	}
+	for _, r := range *al.Referrers() {
+		switch x := r.(type) {
+		case *ssa.DebugRef, *ssa.UnOp:
+		case *ssa.Store:
+			if x.Addr != ssa.Value(al) {
+				return false
+			}
+		case *ssa.FieldAddr:
+			if x.Referrers() == nil {
+				continue
+			}
+			for _, rr := range *x.Referrers() {
+				switch y := rr.(type) {
+				case *ssa.DebugRef, *ssa.UnOp:
+				case *ssa.Store:
+					if y.Addr != ssa.Value(x) {
+						return false
+					}
+				default:
+					return false
+				}
+			}
+		default:
+			return false
+		}
+	}
+	return true
+}
+
+// holdsFlag decides a flag test `rec.flags&C != 0` (or == 0) where the flags field of a record is built up by
+// `rec.flags |= K` statements in the function that makes the record (an option set prepared once and consulted later):
+// "bit C set" implies whatever guards every statement that sets it; "bit C clear" implies whatever must hold for the maker to
+// finish without executing any of them (its success returns being reached with those statements as barriers).
+// handled=false: not such a test.
+func (w *World) holdsFlag(fn *ssa.Function, x *ssa.BinOp, pol bool, m Matcher, en *env, depth int, busy map[holdKey]bool, k holdKey) (handled, result bool) {
+	if x.Op != token.EQL && x.Op != token.NEQ {
+		return false, false
+	}
+	intConst := func(v ssa.Value) (uint64, bool) {
+		c, ok := v.(*ssa.Const)
+		if !ok || c.Value == nil || c.Value.Kind() != constant.Int {
+			return 0, false
+		}
+		u, exact := constant.Uint64Val(c.Value)
+		return u, exact
+	}
+	var and *ssa.BinOp
+	var cmpWith uint64
+	if c, ok := intConst(x.Y); ok {
+		and, _ = x.X.(*ssa.BinOp)
+		cmpWith = c
+	} else if c, ok := intConst(x.X); ok {
+		and, _ = x.Y.(*ssa.BinOp)
+		cmpWith = c
+	}
+	if and == nil || and.Op != token.AND {
+		return false, false
+	}
+	var mask uint64
+	var val ssa.Value
+	if c, ok := intConst(and.Y); ok {
+		mask, val = c, and.X
+	} else if c, ok := intConst(and.X); ok {
+		mask, val = c, and.Y
+	} else {
+		return false, false
+	}
+	if mask == 0 || cmpWith != 0 && cmpWith != mask {
+		return false, false
+	}
+	// bitSet: the truth of the comparison that means "all mask bits... (one bit masks in practice) are set"
+	bitSet := (x.Op == token.NEQ) == (cmpWith == 0)
+	if !pol {
+		bitSet = !bitSet
+	}
+	var base ssa.Value
+	fi := -1
+	switch y := val.(type) {
+	case *ssa.Field:
+		base, fi = y.X, y.Field
+	case *ssa.UnOp:
+		if fa, ok := y.X.(*ssa.FieldAddr); ok && y.Op == token.MUL {
+			base, fi = fa.X, fa.Field
+		}
+	}
+	if base == nil {
+		return false, false
+	}
+	al, g, genv, ok := w.recordOrigin(fn, base, en, 0)
+	if !ok || depth <= 0 {
+		return true, false
+	}
+	// every store to the flags field ORs a constant into it
+	var setters []ssa.Instruction
+	for _, r := range *al.Referrers() {
+		fa, ok := r.(*ssa.FieldAddr)
+		if !ok || fa.Field != fi || fa.Referrers() == nil {
+			continue
+		}
+		for _, rr := range *fa.Referrers() {
+			st, ok := rr.(*ssa.Store)
+			if !ok || st.Addr != ssa.Value(fa) {
+				continue
+			}
+			if c, ok := intConst(st.Val); ok {
+				if c&mask != 0 {
+					setters = append(setters, st)
+				}
+				continue
+			}
+			or, ok := st.Val.(*ssa.BinOp)
+			if !ok || or.Op != token.OR {
+				return true, false
+			}
+			var kc uint64
+			var other ssa.Value
+			if c, ok := intConst(or.Y); ok {
+				kc, other = c, or.X
+			} else if c, ok := intConst(or.X); ok {
+				kc, other = c, or.Y
+			} else {
+				return true, false
+			}
+			ld, ok := other.(*ssa.UnOp)
+			if !ok || ld.Op != token.MUL {
+				return true, false
+			}
+			fa2, ok := ld.X.(*ssa.FieldAddr)
+			if !ok || fa2.X != ssa.Value(al) || fa2.Field != fi {
+				return true, false
+			}
+			if kc&mask != 0 {
+				setters = append(setters, st)
+			}
+		}
+	}
+	busy[k] = true
+	defer delete(busy, k)
+	if bitSet {
+		if len(setters) == 0 {
+			return true, true // never set: the test cannot come out this way
+		}
+		for _, st := range setters {
+			if !w.guarded(g, st, m, genv, depth-1, busy) {
+				return true, false
+			}
+		}
+		return true, true
+	}
+	isSetter := func(in ssa.Instruction) bool {
+		for _, st := range setters {
+			if st == in {
+				return true
+			}
+		}
+		return false
+	}
+	edges := w.establishedEdges(g, m, genv, depth-1, busy)
+	rets := Returns(g)
+	if ErrIndex(g) >= 0 {
+		if sr := w.SuccessReturns(g); len(sr) > 0 {
+			rets = sr
+		}
+	}
+	for _, r := range rets {
+		if Reaches(g, r, Cut{Edges: edges, Barrier: isSetter}) {
+			return true, false
+		}
+	}
+	return true, true
+}
+
+// recordOrigin follows a record value (a struct or a pointer to one, in function fn under en) back to the local it was
+// built in: through by-value/pointer parameters to the caller's argument, through captured variables of a closure to
+// the variable captured, through locals assigned as a whole exactly once, and through the results of in-scope calls
+// (every success return handing back the same local). Returns that local, its function and that function's environment.
+func (w *World) recordOrigin(fn *ssa.Function, base ssa.Value, en *env, depth int) (*ssa.Alloc, *ssa.Function, *env, bool) {
+	if depth > 8 {
+		return nil, nil, nil, false
+	}
+	for {
+		switch y := base.(type) {
+		case *ssa.UnOp:
+			if y.Op == token.MUL {
+				base = y.X
+				continue
+			}
+		case *ssa.ChangeType:
+			base = y.X
+			continue
+		}
+		break
+	}
+	switch b := base.(type) {
+	case *ssa.Alloc:
+		if p := spilledParam(b); p != nil {
+			return w.recordOrigin(fn, p, en, depth+1)
+		}
+		if !localRecord(b) {
+			// a variable captured by a closure and assigned once: what it was assigned
+			if v := singleAssignment(b); v != nil {
+				return w.recordOrigin(fn, v, en, depth+1)
+			}
+			return nil, nil, nil, false
+		}
+		var whole []ssa.Value
+		nField := 0
+		for _, r := range *b.Referrers() {
+			switch x := r.(type) {
+			case *ssa.Store:
+				if c, isC := x.Val.(*ssa.Const); !isC || c.Value != nil {
+					whole = append(whole, x.Val)
+				}
+			case *ssa.FieldAddr:
+				if x.Referrers() == nil {
+					continue
+				}
+				for _, rr := range *x.Referrers() {
+					if _, ok := rr.(*ssa.Store); ok {
+						nField++
+					}
+				}
+			}
+		}
+		switch {
+		case len(whole) == 0:
+			return b, fn, en, true
+		case len(whole) == 1 && nField == 0:
+			return w.recordOrigin(fn, whole[0], en, depth+1)
+		}
+		return nil, nil, nil, false
+	case *ssa.Parameter:
+		if en == nil || en.call == nil || b.Parent() == nil || en.call.Parent() == nil {
+			return nil, nil, nil, false
+		}
+		cc := en.call.Common()
+		var args []ssa.Value
+		if cc.IsInvoke() {
+			args = append(args, cc.Value)
+		}
+		args = append(args, cc.Args...)
+		ps := b.Parent().Params
+		shift := len(ps) - len(args)
+		for i, p := range ps {
+			if p == b && shift >= 0 && i-shift >= 0 && i-shift < len(args) {
+				return w.recordOrigin(en.call.Parent(), args[i-shift], en.caller, depth+1)
+			}
+		}
+		return nil, nil, nil, false
+	case *ssa.FreeVar:
+		for e := en; e != nil; e = e.caller {
+			if e.closure == nil {
+				continue
+			}
+			g, ok := e.closure.Fn.(*ssa.Function)
+			if !ok || g != b.Parent() {
+				continue
+			}
+			for i, fv := range g.FreeVars {
+				if fv == b && i < len(e.closure.Bindings) {
+					return w.recordOrigin(e.closure.Parent(), e.closure.Bindings[i], e.closureEnv, depth+1)
+				}
+			}
+		}
+		return nil, nil, nil, false
+	case *ssa.Call, *ssa.Extract:
+		var call *ssa.Call
+		ri := 0
+		switch y := b.(type) {
+		case *ssa.Call:
+			call = y
+		case *ssa.Extract:
+			c, ok := y.Tuple.(*ssa.Call)
+			if !ok {
+				return nil, nil, nil, false
+			}
+			call, ri = c, y.Index
+		}
+		g, sub := w.calleeEnv(call, en)
+		if g == nil || len(g.Blocks) == 0 {
+			return nil, nil, nil, false
+		}
+		rets := Returns(g)
+		if ErrIndex(g) >= 0 {
+			if sr := w.SuccessReturns(g); len(sr) > 0 {
+				rets = sr
+			}
+		}
+		var al *ssa.Alloc
+		var og *ssa.Function
+		var oen *env
+		for _, r := range rets {
+			if ri >= len(r.Results) {
+				return nil, nil, nil, false
+			}
+			a2, g2, e2, ok := w.recordOrigin(g, r.Results[ri], sub, depth+1)
+			if !ok || al != nil && a2 != al {
+				return nil, nil, nil, false
+			}
+			al, og, oen = a2, g2, e2
+		}
+		return al, og, oen, al != nil
+	}
+	return nil, nil, nil, false
 }
